@@ -54,7 +54,11 @@ func main() {
 	c.Verbose = *verbose
 	c.Race = raceEnabled
 	c.Phase = *phase
-	f(c)
+	if flagMode == "stack" {
+		runStack(c)
+	} else {
+		f(c)
+	}
 	if err := c.Finish(); err != nil {
 		fmt.Fprintln(os.Stderr, "finish:", err)
 		os.Exit(3)
